@@ -16,6 +16,10 @@
 // period (or, for an own failure, inside it - then the test has failed anyway): never a test's leak; they appear in the
 // final report iff still held then.  (2) a script step "leak k blocks" (k = 1..150, never released by a test), so that the
 // output's retained blocks share hash buckets (address % 73) with a test's leaked blocks as a rule, not by luck.
+// Extension (seeded change C07-s3): script step realloc(slot, n) through cpputest_realloc_location on a malloc-family slot -
+// growing, same size, shrinking, to 0 bytes (the code defines it: a tracked 0-byte block comes back) - on blocks of the
+// current test and on blocks left by earlier tests, and realloc(NULL, n) as an allocation form.  Model: the old block is
+// released, the result is a NEW block allocated by the current test.
 #include "common.h"
 #include "CppUTest/TestHarness_c.h"
 #include "CppUTest/JUnitTestOutput.h"
@@ -33,12 +37,12 @@ using verif::sfmt;
 namespace {
 
 enum { MAXT = 16, NSLOT = 16, MAXOPS = 8, BULKMAX = 150, BULKTOTAL = 1200, MAXKEPT = 2 * MAXT * 4, MAXBLK = MAXT * 3 * MAXOPS + BULKTOTAL + MAXKEPT, MAXFAIL = 4, MSGLEN = SimpleStringBuffer::SIMPLE_STRING_BUFFER_LEN + 64 };
-enum Kind { K_NEW = 0, K_NEWARR = 1, K_MALLOC = 2, K_RELEASE, K_EXPECT, K_IGNORE, K_CHECK, K_FAIL, K_BULK };
+enum Kind { K_NEW = 0, K_NEWARR = 1, K_MALLOC = 2, K_RELEASE, K_EXPECT, K_IGNORE, K_CHECK, K_FAIL, K_BULK, K_REALLOC };
 enum OutMode { OUT_PLAIN = 0, OUT_COLLECTING = 1, OUT_JUNIT = 2 };
 const char* fam_name[3] = {"new", "new[]", "malloc"};
 const char* phase_name[3] = {"setup", "body", "teardown"};
 
-struct Op { int kind, slot, fam, blk; size_t size; unsigned k; };
+struct Op { int kind, slot, fam, blk, old; size_t size; unsigned k; };
 struct Phase { int n; Op ops[MAXOPS]; };
 struct Script { Phase ph[3]; };
 struct Blk { char* p; unsigned num; size_t size; int fam, owner, phase; bool live; };
@@ -77,6 +81,13 @@ void run_phase(int t, int ph) {             // NON-ALLOCATING interpreter = the 
                 b.p = p;
             }
             break;
+        case K_REALLOC: {                                // old < 0: realloc(NULL, n)
+            Blk& b = g_blk[o.blk];
+            b.num = g_det->getCurrentAllocationNumber();
+            char* p = (char*)cpputest_realloc_location(o.old >= 0 ? g_slot_ptr[o.slot] : NULLPTR, o.size, "script.c", (size_t)(300 + t));
+            memset(p, 0x30 + (o.blk % 10), o.size);
+            b.p = p; g_slot_ptr[o.slot] = p;
+            break; }
         case K_RELEASE: {
             char* p = g_slot_ptr[o.slot]; g_slot_ptr[o.slot] = NULLPTR;
             if (o.fam == K_NEW) ::operator delete(p); else if (o.fam == K_NEWARR) ::operator delete[](p); else cpputest_free_location(p, "script.c", (size_t)(200 + t));
@@ -155,7 +166,7 @@ struct TestModel {
     std::vector<int> leaks;          // blocks allocated during this test and still outstanding at its end
     bool leak_failure = false;
     bool cross_release = false, edge_leak = false, expect_nonzero = false;
-    int bulk = 0;
+    int bulk = 0, reallocs = 0; bool realloc_earlier_not_larger = false;
 };
 
 struct Entry { unsigned num; unsigned long size; std::string addr; bool operator<(const Entry& o) const { return std::tie(num, size, addr) < std::tie(o.num, o.size, o.addr); } bool operator==(const Entry& o) const { return num == o.num && size == o.size && addr == o.addr; } };
@@ -225,10 +236,29 @@ int run_case(Reader& r, bool& nontrivial, std::string& desc) {
             if (n) desc += sfmt("%s:", phase_name[ph]);
             for (int i = 0; i < n && !stopped; i++) {
                 Op& o = P.ops[P.n]; memset(&o, 0, sizeof o);
-                uint32_t kind = r.below(11);       // 0-3 alloc, 4-6 release, 7 expect/ignore, 8 check, 9 own failure, 10 leak k blocks
+                uint32_t kind = r.below(12);       // 0-3 alloc, 4-6 release, 7 expect/ignore, 8 check, 9 own failure, 10 leak k blocks, 11 realloc
                 int slot = r.chance(1, 2) ? (int)r.below(4) : (int)r.below(NSLOT);
                 o.slot = slot;
-                if (kind == 10) {
+                if (kind == 11 && slot_blk[slot] >= 0 && g_blk[slot_blk[slot]].fam != K_MALLOC) kind = 4;   // realloc is for the malloc family: release instead
+                if (kind == 11) {
+                    o.kind = K_REALLOC; o.fam = K_MALLOC; o.old = slot_blk[slot]; o.blk = g_nblk;
+                    if (o.old < 0) { o.size = r.below(25); desc += sfmt("s%d=realloc(NULL,%zu) ", slot, o.size); }
+                    else {
+                        Blk& ob = g_blk[o.old];
+                        switch (r.below(4)) {
+                        default:
+                        case 0: o.size = ob.size; break;                                    // same size
+                        case 1: o.size = ob.size + 1 + r.below(16); break;                  // growing
+                        case 2: o.size = ob.size ? r.below((uint32_t)ob.size) : 0; break;   // shrinking
+                        case 3: o.size = 0; break;                                          // to 0 bytes: a tracked 0-byte block
+                        }
+                        ob.live = false;                                                    // the old block is released ...
+                        if (ob.owner != t) { M.cross_release = true; if (o.size <= ob.size) M.realloc_earlier_not_larger = true; }
+                        desc += sfmt("s%d=realloc(s%d%s,%zu<-%zu) ", slot, slot, ob.owner != t ? sfmt(" of t%02d", ob.owner).c_str() : "", o.size, ob.size);
+                    }
+                    Blk& b = g_blk[g_nblk++]; b.p = NULLPTR; b.num = 0; b.size = o.size; b.fam = K_MALLOC; b.owner = t; b.phase = ph; b.live = true;   // ... and the result is a new block of this test
+                    slot_blk[slot] = o.blk; M.reallocs++;
+                } else if (kind == 10) {
                     unsigned k = 1 + r.below(BULKMAX);
                     if (bulk_total + (int)k > BULKTOTAL) k = (unsigned)(BULKTOTAL - bulk_total);
                     if (k == 0) { o.kind = K_CHECK; desc += "CHECK(ok) "; }
@@ -348,6 +378,8 @@ int run_case(Reader& r, bool& nontrivial, std::string& desc) {
         if (!M.own_failures && !M.ignored && M.expected && M.leaks.size() == M.expected) verif::cls("test:expected-leaks-met");
         if (!M.own_failures && !M.leak_failure && M.cross_release) verif::cls("test:passes-while-freeing-earlier-block");
         if (M.leak_failure && M.cross_release) verif::cls("test:leaks-although-it-freed-an-earlier-block");
+        if (M.reallocs) verif::cls("test:has-realloc-step");
+        if (M.realloc_earlier_not_larger) verif::cls(M.leak_failure ? "test:realloc-of-earlier-tests-block-to-same-or-smaller-size(leak-failure)" : "test:realloc-of-earlier-tests-block-to-same-or-smaller-size");
     }
 
     if (verif::g_explain) {
